@@ -645,9 +645,9 @@ func TestCheck(t *testing.T) {
 			"a contender whose release path has started (first touch of LOCK) no longer counts as holder, although its Close/Release has not returned yet",
 		},
 	}
-	pbt.Add(s, &pbt.Spec[Case]{Name: "dirlock", Gen: genLock, Run: run, Quick: 20000, Thorough: 1500000, Shards: 6})
-	pbt.Add(s, &pbt.Spec[Case]{Name: "opendb", Gen: genDB, Run: run, Quick: 100, Thorough: 2000, Shards: 4})
-	pbt.Add(s, &pbt.Spec[Case]{Name: "procs", Gen: genProcs, Run: run, Quick: 800, Thorough: 30000, Shards: 4})
+	pbt.Add(s, &pbt.Spec[Case]{Name: "dirlock", Gen: genLock, Run: run, Quick: 60000, Thorough: 3000000, Shards: 6})
+	pbt.Add(s, &pbt.Spec[Case]{Name: "opendb", Gen: genDB, Run: run, Quick: 200, Thorough: 4000, Shards: 4})
+	pbt.Add(s, &pbt.Spec[Case]{Name: "procs", Gen: genProcs, Run: run, Quick: 2000, Thorough: 60000, Shards: 4})
 	pbt.Add(s, &pbt.Spec[FreeCase]{Name: "free", Gen: genFree, Run: runFree, Quick: 200, Thorough: 5000, Shards: 4, Nondet: true})
 	s.Main(t)
 }
